@@ -233,7 +233,11 @@ fn fmt_source_code_trace(
     printer
         .new_line()
         .with_margin_content(format!["{}", s.line_number])
-        .with_content(highlight_substring(&s.line_content, s.index, s.value.len()))
+        .with_content(highlight_substring(
+            &s.line_content,
+            s.index,
+            s.value.chars().count(),
+        ))
         .print(f)?;
     printer
         .new_line()
@@ -247,15 +251,25 @@ fn fmt_source_code_trace(
     Ok(())
 }
 
+/// Highlight `length` characters of the line starting at the character index `start`.
+///
+/// Both arguments count characters, not bytes, because this is what a source code trace records.
 fn highlight_substring(line: &str, start: usize, length: usize) -> String {
-    if line.len() < start + length {
+    let mut boundaries = line
+        .char_indices()
+        .map(|(byte_index, _)| byte_index)
+        .chain(std::iter::once(line.len()));
+    let (Some(from), Some(to)) = (
+        boundaries.clone().nth(start),
+        boundaries.nth(start + length),
+    ) else {
         return line.into();
-    }
+    };
     format![
         "{}{}{}",
-        &line[..start],
-        (&line[start..start + length]).bold(),
-        line[start + length..].trim_end(),
+        &line[..from],
+        (&line[from..to]).bold(),
+        line[to..].trim_end(),
     ]
 }
 
@@ -280,7 +294,7 @@ fn fmt_source_code_trace_light(
         f,
         "{}  {}",
         prefix,
-        highlight_substring(&s.line_content, s.index, s.value.len())
+        highlight_substring(&s.line_content, s.index, s.value.chars().count())
     )?;
     writeln!(
         f,
